@@ -81,6 +81,6 @@ def r_orch(tmp, inp):
     tf = out.transform_fxn
     kw = getattr(tf, 'keywords', None) or {}
     if getattr(tf, 'func', None) is not FlowCal.transform.to_mef or list(kw.get('sc_channels', [])) != chs \
-            or [x[0] for x in kw.get('sc_list', [])] != [('curve', c) for c in range(len(chs))]:
+            or list(kw.get('sc_list', [])) != [('curve', c) for c in range(len(chs))]:
         return True, '[transform] the returned transformation does not bind curve c to calibrated channel c'
     return False, 'agrees'
